@@ -223,6 +223,23 @@ def run_gjk_nesterov_accelerated(
             inside = distance < tolerance
             break
 
+        # The new support point is already a vertex of the simplex: no
+        # progress is possible, the current ray is the closest point.
+        duplicate = False
+        for k in range(simplex_len - 1):
+            if (simplex[k, 0] == support_point[0]
+                    and simplex[k, 1] == support_point[1]
+                    and simplex[k, 2] == support_point[2]):
+                duplicate = True
+        if duplicate:
+            simplex_len -= 1
+            if use_nesterov_acceleration:
+                use_nesterov_acceleration = False
+                continue
+            distance = ray_len - inflation
+            inside = distance < tolerance
+            break
+
         assert 1 <= simplex_len <= 4
         if simplex_len == 1:
             ray = np.copy(support_point)
